@@ -1315,3 +1315,91 @@ Proof.
   intros l o r Hr Hk. split; [apply live_iff_owner_lemma; assumption|].
   destruct (unmapped_once_lemma (l ++ [o]) r Hr) as [A B]. split; [exact A|]. apply (B Hk).
 Qed.
+
+(* ================================================================== locality: an operation touches only the records
+   of the regions its argument handles reach.  In particular the munmap of a Drop hits the dropped handle's own
+   regions and NO other mapping ("unmapped exactly once, nothing else touched"). *)
+Definition args_reach (s : state) (o : op) (r : N) : Prop :=
+  exists h hd, In h (args o) /\ get_handle s h = Some hd /\ In r (reach_list s hd).
+
+Lemma count_zero_notin r l : ~ In r l -> count r l = O.
+Proof. intros H. destruct (count r l) eqn:C; [reflexivity|]. exfalso. apply H, count_pos_In. lia. Qed.
+Lemma clone_arcs_notin rs f r : ~ In r rs -> clone_arcs rs f r = f r.
+Proof. intros H. rewrite clone_arcs_at, (count_zero_notin r rs H). reflexivity. Qed.
+Lemma drop_arcs_notin rs f r : ~ In r rs -> drop_arcs rs f r = f r.
+Proof. intros H. rewrite drop_arcs_at, (count_zero_notin r rs H). reflexivity. Qed.
+Lemma region_handles_reach s hs rs r : region_handles s hs = Some rs -> In r rs ->
+  exists h, In h hs /\ get_handle s h = Some (HRegion r).
+Proof.
+  intros RH Hin. rewrite region_handles_rh in RH. destruct (rh_l_In _ _ _ r RH Hin) as (h & A & B).
+  exists h. split; [exact A|]. unfold get_handle. rewrite B. reflexivity.
+Qed.
+Lemma sort_In f r l : In r (sort_by_start f l) <-> In r l.
+Proof. split; apply Permutation_in; [apply sort_perm|apply Permutation_sym, sort_perm]. Qed.
+
+Lemma op_local_gen s o r : r < nreg s -> ~ args_reach s o r -> reg (fst (exec o s)) r = reg s r.
+Proof.
+  intros Hr Hn.
+  assert (Via : forall h hd, In h (args o) -> get_handle s h = Some hd -> ~ In r (reach_list s hd)).
+  { intros h hd A B C. apply Hn. exists h, hd. repeat split; assumption. }
+  destruct o as [kind slot|hs|hm hr|hm base size|h|hm|h|v slot|unwrap hs|hm hr]; cbn [exec args] in *.
+  - cbn [fst reg]. unfold updf. destruct (N.eqb_spec r (nreg s)); [lia|reflexivity].
+  - destruct (region_handles s hs) as [rs|] eqn:RH; [|reflexivity].
+    assert (Nin : ~ In r rs).
+    { intros Hin. destruct (region_handles_reach s hs rs r RH Hin) as (h & A & B). apply (Via h _ A B). left. reflexivity. }
+    destruct (from_arc_regions_ok _ _); cbn [fst push with_reg reg].
+    + apply clone_arcs_notin, Nin.
+    + rewrite drop_arcs_notin by exact Nin. apply clone_arcs_notin, Nin.
+  - destruct (get_handle s hm) as [[?|rs|?]|] eqn:G1; try reflexivity.
+    destruct (get_handle s hr) as [[r0|?|?]|] eqn:G2; try reflexivity.
+    assert (N1 : ~ In r rs) by (apply (Via hm _ (or_introl eq_refl) G1)).
+    assert (N2 : r <> r0) by (intros ->; apply (Via hr _ (or_intror (or_introl eq_refl)) G2); left; reflexivity).
+    assert (E : updf (clone_arcs rs (reg s)) r0 (clone1 (clone_arcs rs (reg s) r0)) r = reg s r).
+    { unfold updf. destruct (N.eqb_spec r r0); [contradiction|]. apply clone_arcs_notin, N1. }
+    destruct (from_arc_regions_ok _ _); cbn [fst push with_reg reg]; [exact E|].
+    rewrite drop_arcs_notin; [exact E|]. rewrite sort_In. intros Hin. apply in_app_or in Hin. destruct Hin as [Hin|[<-|[]]]; [contradiction|congruence].
+  - destruct (get_handle s hm) as [[?|rs|?]|] eqn:G1; try reflexivity.
+    destruct (find_start (reg s) base rs) as [i|]; [|reflexivity]. destruct (size =? PAGE); [|reflexivity].
+    cbn [fst push reg]. apply clone_arcs_notin. apply (Via hm _ (or_introl eq_refl) G1).
+  - destruct (get_handle s h) as [[r0|rs|a]|] eqn:G; try reflexivity.
+    + cbn [fst push reg]. unfold updf. destruct (N.eqb_spec r r0) as [->|]; [|reflexivity].
+      exfalso. apply (Via h _ (or_introl eq_refl) G). left. reflexivity.
+    + cbn [fst push reg]. apply clone_arcs_notin. apply (Via h _ (or_introl eq_refl) G).
+    + destruct (nth_error (snaps s) a); reflexivity.
+  - destruct (get_handle s hm) as [[?|rs|?]|] eqn:G; try reflexivity.
+    cbn [fst reg]. apply clone_arcs_notin. apply (Via hm _ (or_introl eq_refl) G).
+  - destruct (get_handle s h) as [[r0|rs|a]|] eqn:G; try reflexivity.
+    + cbn [fst reg]. unfold updf. destruct (N.eqb_spec r r0) as [->|]; [|reflexivity].
+      exfalso. apply (Via h _ (or_introl eq_refl) G). left. reflexivity.
+    + cbn [fst reg]. apply drop_arcs_notin. apply (Via h _ (or_introl eq_refl) G).
+    + pose proof (Via h _ (or_introl eq_refl) G) as Nin. cbn [reach_list] in Nin.
+      destruct (nth_error (snaps s) a) as [sn|]; [|reflexivity].
+      destruct (s_strong sn) as [|[|n]]; cbn [fst reg]; try reflexivity. apply drop_arcs_notin, Nin.
+  - destruct (v <? 6); [reflexivity|]. cbn [fst reg]. unfold updf. destruct (N.eqb_spec r (nreg s)); [lia|reflexivity].
+  - destruct (region_handles s hs) as [rs|] eqn:RH; [|reflexivity].
+    assert (Nin : ~ In r rs).
+    { intros Hin. destruct (region_handles_reach s hs rs r RH Hin) as (h & A & B). apply (Via h _ A B). left. reflexivity. }
+    destruct (nodupb hs && _); [|reflexivity].
+    destruct (from_arc_regions_ok _ _); cbn [fst reg]; [reflexivity|]. apply drop_arcs_notin, Nin.
+  - destruct (get_handle s hm) as [[?|rs|?]|] eqn:G1; try reflexivity.
+    destruct (get_handle s hr) as [[r0|?|?]|] eqn:G2; try reflexivity.
+    assert (N1 : ~ In r rs) by (apply (Via hm _ (or_introl eq_refl) G1)).
+    assert (N2 : r <> r0) by (intros ->; apply (Via hr _ (or_intror (or_introl eq_refl)) G2); left; reflexivity).
+    destruct (from_arc_regions_ok _ _); cbn [fst reg]; [apply clone_arcs_notin, N1|].
+    rewrite drop_arcs_notin; [apply clone_arcs_notin, N1|]. rewrite sort_In. intros Hin. apply in_app_or in Hin.
+    destruct Hin as [Hin|[<-|[]]]; [contradiction|congruence].
+Qed.
+
+Lemma op_local_lemma : forall l o r, r < nreg (run l) -> ~ args_reach (run l) o r ->
+  reg (run (l ++ [o])) r = reg (run l) r.
+Proof. intros l o r Hr Hn. rewrite run_snoc. apply op_local_gen; assumption. Qed.
+
+(* the drop of a handle, spelled out: every region the handle does not reach keeps its record - mapping state,
+   munmap count, strong count *)
+Lemma drop_local_lemma : forall l h r, r < nreg (run l) ->
+  (forall hd, get_handle (run l) h = Some hd -> ~ In r (reach_list (run l) hd)) ->
+  reg (run (l ++ [DropH h])) r = reg (run l) r.
+Proof.
+  intros l h r Hr Hn. apply op_local_lemma; [exact Hr|]. intros (h' & hd & A & B & C). cbn [args] in A.
+  destruct A as [<-|[]]. exact (Hn hd B C).
+Qed.
